@@ -236,7 +236,10 @@ impl Evidence {
         let mut coverage = serde_json::Map::new();
         coverage.insert("evaluations".into(), json!(self.evaluations));
         coverage.insert("distinct_nontrivial".into(), json!(self.distinct_nontrivial));
-        coverage.insert("rule".into(), json!(self.rule));
+        coverage.insert(
+            "rule".into(),
+            json!(format!("{} [distinct cases are counted with a 2^30-bit bitmap over their 64-bit hashes: a collision can only lower the count]", self.rule)),
+        );
         coverage.insert("samples".into(), json!(self.samples));
         coverage.insert("exhaustive".into(), json!(false));
         for (k, v) in &self.extra {
@@ -408,6 +411,61 @@ pub mod budget {
 
     pub fn is_budget_panic(msg: &str) -> bool {
         msg == INSN_PAYLOAD || msg == SEARCH_PAYLOAD
+    }
+}
+
+/// The same, in chunks, folding each job's result as soon as its chunk is done instead of keeping
+/// millions of results in memory. `fold` sees results in index order within a chunk and chunks in
+/// order, so the aggregate is still independent of the worker count. Stops after the first chunk
+/// that contains a violation (the lowest failing index of that chunk is reported).
+pub fn run_batch_chunked<R: Send + 'static>(
+    n: u64,
+    workers: usize,
+    job: impl Fn(u64) -> (R, Option<Violation>) + Send + Sync + 'static,
+    mut fold: impl FnMut(u64, R),
+) -> (u64, Option<(u64, Violation)>) {
+    const CHUNK: u64 = 32_768;
+    let job = Arc::new(job);
+    let mut done = 0u64;
+    let mut off = 0u64;
+    while off < n {
+        let len = CHUNK.min(n - off);
+        let j = job.clone();
+        let (res, v) = run_batch(len, workers, move |i| j(off + i));
+        for (i, r) in res {
+            fold(off + i, r);
+            done += 1;
+        }
+        if let Some((i, v)) = v {
+            return (done, Some((off + i, v)));
+        }
+        off += len;
+    }
+    (done, None)
+}
+
+/// Conservative distinct counter: a 2^30-bit bitmap indexed by the low bits of a 64-bit hash.
+/// Two different cases that collide are counted once, so the count never exceeds the true number
+/// of distinct cases; memory stays at 128 MB however long the run is.
+pub struct Distinct {
+    bits: Vec<u64>,
+}
+
+impl Distinct {
+    pub fn new() -> Distinct {
+        Distinct { bits: vec![0u64; 1 << 24] }
+    }
+    pub fn insert(&mut self, h: u64) {
+        let b = (h ^ (h >> 30)) & ((1 << 30) - 1);
+        self.bits[(b >> 6) as usize] |= 1 << (b & 63);
+    }
+    pub fn extend<'a>(&mut self, it: impl Iterator<Item = &'a u64>) {
+        for h in it {
+            self.insert(*h);
+        }
+    }
+    pub fn len(&self) -> usize {
+        self.bits.iter().map(|w| w.count_ones() as usize).sum()
     }
 }
 
